@@ -33,6 +33,9 @@ var Corpus = map[string][]string{
 		"a: &x {b: {<<: *x}, c: 1}\nd: *x\n",
 		"a: &x {<<: [*x]}\n",
 		"base: &b {k: 1, self: *b}\nuse: {<<: *b, own: 2}\nlist: [*b, *b]\n",
+		// empty containers; comments that are nothing but the indicator
+		"a: []\nb: {}\nc: [[]]\n", "[]\n", "- []\n- [1]\n", "a: [1]\n---\na: []\n",
+		"#\na: 1\n", "# \n#\n---\n#\nb: 2 #\n", "a: 1 #\nb: #\n  - 1\n#\n",
 		// strings that are expressions (eval), also ones that eval themselves
 		"a: \"eval(.a)\"\nb: \".c\"\nc: [1, 2]\nx: &x {k: 1}\n",
 		"a: \".. | eval(.a)\"\nb: \"eval(.b) , .\"\n",
